@@ -170,6 +170,13 @@ func (e *Engine) iteVal(c T, a, b Value) Value {
 	if c.isFalse() {
 		return b
 	}
+	// nil = "no value": the route ended in a (guarded) panic before producing one
+	if a == nil {
+		return b
+	}
+	if b == nil {
+		return a
+	}
 	switch x := a.(type) {
 	case T:
 		return tite(c, x, b.(T))
@@ -201,8 +208,6 @@ func (e *Engine) iteVal(c T, a, b Value) Value {
 		return e.mptrIte(c, a, b)
 	case MPtr:
 		return e.mptrIte(c, a, b)
-	case nil:
-		return nil
 	case IteV:
 		return IteV{c: c, a: a, b: b}
 	case IfaceV:
